@@ -94,7 +94,8 @@ fn first_diff(got: &[Vec<u8>], exp: &[Vec<u8>]) -> String {
 }
 
 /// `None` when the outcome is the expected one, otherwise (failure shape, human text). Shapes:
-/// `logs-differ`, `unexpected-revert`, `missing-revert`, `wrong-revert-code`, `logs-before-revert-differ`.
+/// `logs-differ` (also for logs emitted before an expected revert), `unexpected-revert`,
+/// `missing-revert`, `wrong-revert-code`.
 pub fn mismatch(out: &Outcome, exp: &Exp) -> Option<(&'static str, String)> {
     match (out, exp) {
         (Outcome::Ok { logs }, Exp::Ok(el)) => {
@@ -113,7 +114,7 @@ pub fn mismatch(out: &Outcome, exp: &Exp) -> Option<(&'static str, String)> {
                 }
             }
             if &d != el {
-                Some(("logs-before-revert-differ", first_diff(&d, el)))
+                Some(("logs-differ", first_diff(&d, el)))
             } else {
                 None
             }
@@ -425,7 +426,8 @@ pub fn judge(
     // full std type-check); further cases of an already confirmed key are only counted.
     let n = seen_keys.entry(key.clone()).or_insert(0);
     *n += 1;
-    if *n <= confirm_cap {
+    // (once the reporter's cap of printed violations is reached nothing more would be printed anyway)
+    if *n <= confirm_cap && rep.violation_count() < 25 {
         *confirm_counter += 1;
         let alone = confirm_alone(pool, &format!("{}_confirm{}", id.to_lowercase(), *confirm_counter), prelude, case, false);
         let still = match &alone {
